@@ -121,7 +121,7 @@ def run(ctx):
             for f, s in (("%d %B %Y", "%d %s %d" % (dday, name, y)),):
                 cases.append({"s": s, "langs": [rec["name"]], "settings": {"RELATIVE_BASE": base, "TIMEZONE": "UTC"}, "fmts": [f], "today": today,
                               "expect": expect_str(D(y, m, dday)), "stratum": "localized-names"})
-    res = decide(ctx, cases, model_share=0.6 if tier == "quick" else 0.15)
+    res = decide(ctx, cases, model_share=0.6 if tier == "quick" else 1.0)
     res["assumptions"] = ["'current' day/month and the missing year come from the system clock (read once at the start; the run must not cross midnight)",
                           "localized month names: the result must be the named month whichever parser produces it (the custom format on the translated string, or the absolute parser)",
                           "formats with %z are outside the family (DESIGN §7 #12)"]
